@@ -21,7 +21,7 @@ import sys
 
 from .common import Ctx, fork_map, load_design_module, import_cohdl, scratch_dir, REPO, InfraError
 from . import lean_io
-from .c11_pool import POOL
+from .c11_pool import POOL, RESERVED_OPTION, OPTION_STEPS
 
 ACCEPTED = [n for n, v in POOL.items() if v[1] == "ok"]
 REJECTED = [n for n, v in POOL.items() if v[1] == "reject"]
@@ -98,6 +98,55 @@ def _refs():
                 cont0=IrGenerator._continue_result, static={})
 
 
+# class-/module-level containers that legitimately change (caches that only grow, keyed counters); everything else
+# in cohdl.* must have the same CONTENT after a compilation as before the first one
+CONTAINER_WHITELIST = (
+    "FunctionDefinition._known_definitions", "_Prefix._existing_prefix", "_SubTypes", "_intrinsic_functions",
+    "_intrinsic_replacements", "_expr_functions", "linecache",
+    "_value2member_map_", "_member_map_", "_member_names_",  # enum.Flag creates composite members lazily
+)
+
+
+def _containers():
+    """every dict / set / list bound at module level or class level in a cohdl module"""
+    out = {}
+    for mname, mod in list(sys.modules.items()):
+        if mod is None or not (mname == "cohdl" or mname.startswith("cohdl.")):
+            continue
+        for an, av in list(vars(mod).items()):
+            if an.startswith("__"):
+                continue
+            if isinstance(av, (dict, set, list)):
+                out[f"{mname}.{an}"] = av
+            elif isinstance(av, type) and getattr(av, "__module__", None) == mname:
+                for cn, cv in list(vars(av).items()):
+                    if not cn.startswith("__") and isinstance(cv, (dict, set, list)):
+                        out[f"{mname}.{av.__name__}.{cn}"] = cv
+    return {k: v for k, v in out.items() if not any(w in k for w in CONTAINER_WHITELIST)}
+
+
+def _canon(x):
+    if isinstance(x, (str, int, bool, float, type(None))):
+        return repr(x)
+    if isinstance(x, tuple):
+        return "(" + ",".join(_canon(e) for e in x) + ")"
+    return type(x).__name__
+
+
+def _digests():
+    out = {}
+    for k, c in _containers().items():
+        try:
+            if isinstance(c, dict):
+                items = sorted(_canon(a) + ":" + _canon(b) for a, b in list(c.items()))
+            else:
+                items = sorted(_canon(e) for e in list(c))
+        except Exception:  # noqa
+            items = ["?"]
+        out[k] = hash(tuple(items))
+    return out
+
+
 def _snapshot(r, classes):
     """canonical snapshot of the real globals, same format as `CohdlVerif.C11.snapshot` (after `canon_model`)"""
     pa, ctxm, IG = r["pa"], r["ctx"], r["IG"]
@@ -115,13 +164,16 @@ def _snapshot(r, classes):
         "apply": int(pa._parent_frame is not None), "ret": len(pa._return_stack._stack), "always": 0,
         "ircall": int(IG.returned_blocks is not r["ret0"] or len(IG.returned_blocks) != 0),
         "irapply": int(r["ir"].Statement._current_frame is not None),
-        "sm": int(r["SM"]._singleton is not None), "loop": loop,
+        "sm": int(r["SM"]._singleton is not None), "loop": loop, "scope": 0,
     }
     s = " ".join(f"{k}={v}" for k, v in f.items())
     s += " pfxs=" + ",".join(p._prefix for p in r["P"]._prefix_scope)
     s += " inst=" + ".".join(str(c) for c in inst) + " reg= inl=" + ".".join("1" for _ in pa._inline_declared_entities)
     # per-class state: ports added while an architecture ran (kept on the class until its next elaboration) and
     # the snapshot `non_dynamic_ports` (must be exactly the statically declared ports, or None)
+    now = _digests()
+    cont = sorted(k.replace("cohdl.", "", 1) for k in set(now) | set(r["digest0"]) if now.get(k) != r["digest0"].get(k))
+    s += " cont=" + ",".join(cont)
     dyn, ndp = [], []
     for code, cls in classes.items():
         info = cls._cohdl_info
@@ -173,6 +225,31 @@ def _entity_codes(idx, mod):
     return out
 
 
+def compile_with_option(std, E, opt):
+    """one compilation step through the entry point / with the compiler options selected by `opt`"""
+    import cohdl
+
+    if opt == "":
+        return std.VhdlCompiler.to_string(E)
+    if opt == "res":
+        return std.VhdlCompiler.to_string(E, additional_reserved_names=set(RESERVED_OPTION))
+    if opt == "lib":
+        return str(std.VhdlCompiler.to_vhdl_library(E).write())
+    if opt == "ir":
+        tmpl = std.VhdlCompiler.to_ir(E)
+        return "IR contexts: " + ",".join(sorted(c.name() for c in tmpl.contexts()))
+    if opt == "dir":
+        import tempfile
+
+        with tempfile.TemporaryDirectory() as d:
+            files = std.VhdlCompiler.to_dir(E, os.path.join(d, "out"), mkdir=True)
+            return "\n".join(os.path.basename(f) + "\n" + open(f).read() for f in sorted(files))
+    if opt in ("tb0", "tb1"):
+        cohdl.use_pretty_traceback(opt == "tb1")  # a user setting: persists, must not influence any output
+        return std.VhdlCompiler.to_string(E)
+    raise InfraError(f"unknown option step {opt}")
+
+
 def history_task(item):
     """compile the designs of one history in THIS process; returns per step (verdict, text|errclass, phase, snapshot)"""
     hist, perturb = item
@@ -189,8 +266,10 @@ def history_task(item):
     r = _refs()
     mods, classes = {}, {}
     out = []
+    r["digest0"] = _digests()
     for name in hist:
-        bname, _, cfg = name.partition("@")
+        name_cfg, _, opt = name.partition("#")
+        bname, _, cfg = name_cfg.partition("@")
         if bname not in mods:
             mods[bname] = load_design_module(POOL[name][0], tag=bname)
             for cname, cls in _entity_codes(0, mods[bname]).items():
@@ -203,7 +282,7 @@ def history_task(item):
         buf = io.StringIO()
         try:
             with contextlib.redirect_stdout(buf), contextlib.redirect_stderr(buf):
-                text = std.VhdlCompiler.to_string(E)
+                text = compile_with_option(std, E, opt)
             step = ["ok", text, None]
         except BaseException as e:  # noqa
             step = ["rej", _err_class(e), _phase_of(e.__traceback__)]
@@ -264,10 +343,12 @@ class Codes:
         for name in POOL:
             for tok in POOL[name][3].split():
                 if tok.startswith("<arch:"):
-                    self.ents.setdefault(f"{name.partition('@')[0]}/{tok[6:]}", len(self.ents) + 1)
-                for pre in ("<pfx:", "N:", "A:"):
+                    self.ents.setdefault(f"{name.partition('#')[0].partition('@')[0]}/{tok[6:]}", len(self.ents) + 1)
+                for pre in ("<pfx:", "N:", "A:", "D:"):
                     if tok.startswith(pre):
                         self.names.setdefault(tok[len(pre):], len(self.names) + 1)
+        for n in RESERVED_OPTION:
+            self.names.setdefault(n, len(self.names) + 1)
         self.name_of = {v: k for k, v in self.names.items()}
         self.ent_of = {v: k for k, v in self.ents.items()}
 
@@ -275,13 +356,17 @@ class Codes:
         out = []
         for tok in POOL[name][3].split():
             if tok.startswith("<arch:"):
-                tok = f"<arch:{self.ents[name.partition('@')[0] + '/' + tok[6:]]}"
+                tok = f"<arch:{self.ents[name.partition('#')[0].partition('@')[0] + '/' + tok[6:]]}"
             elif tok.startswith("<pfx:"):
                 tok = f"<pfx:{self.names[tok[5:]]}"
             elif tok.startswith("N:"):
                 tok = f"N:{self.names[tok[2:]]}"
             elif tok.startswith("A:"):
                 tok = f"A:{self.names[tok[2:]]}"
+            elif tok.startswith("D:"):
+                tok = f"D:{self.names[tok[2:]]}"
+            elif tok == "<scope:R":
+                tok = "<scope:" + ",".join(str(self.names[n]) for n in RESERVED_OPTION)
             out.append(tok)
         return " ".join(out)
 
@@ -383,6 +468,11 @@ def effect(base_step, step):
 def shrink_history(hist, i, base, eff):
     """smallest sub-history (ending in hist[i]) on which design hist[i] still shows the effect"""
     cur = list(hist[: i + 1])
+    # most leaks need one culprit: try every [c, victim] first (one batch of forks)
+    cands = [[c, cur[-1]] for c in dict.fromkeys(cur[:-1])]
+    for c, r in zip(cands, real_histories(cands)):
+        if effect(base[c[-1]], r[-1]) == eff:
+            return c
     changed = True
     while changed and len(cur) > 1:
         changed = False
@@ -435,10 +525,32 @@ def run(ctx: Ctx):
     # every child; the baseline above was taken from the pristine interpreter)
     warm_parent()
     hists = []
-    second = list(POOL) if not ctx.quick else [a for a in ACCEPTED if "@" not in a] + ["r_trace_noctx"]
-    for r in REJECTED:
-        for x in second:
-            hists.append([r, x, x])
+    plain_acc = [a for a in ACCEPTED if "@" not in a and "#" not in a]
+    if ctx.quick:
+        # one fork costs far more than a compilation: instead of one process per [r, x, x] the designs x are chained
+        # in chunks of 4 behind the rejected design (order shuffled per seed, the always-rejected canary first);
+        # a failing chain is minimised to [culprit, victim] afterwards.  thorough = the full matrix.
+        for r in REJECTED:
+            xs = list(plain_acc)
+            rng.shuffle(xs)
+            for c in range(0, len(xs), 4):
+                hists.append([r] + (["r_trace_noctx"] if c == 0 else []) + [y for x in xs[c:c + 4] for y in (x, x)])
+    else:
+        for r in REJECTED:
+            for x in list(POOL):
+                hists.append([r, x, x])
+    # compiler options / entry points of a step (additional_reserved_names with names that other designs use, to_ir,
+    # to_vhdl_library, to_dir, traceback setting), each followed by plain compilations of every plain design
+    for o in OPTION_STEPS:
+        if POOL[o][1] != "ok":
+            continue  # rejected option steps are part of REJECTED above
+        xs = list(plain_acc)
+        rng.shuffle(xs)
+        if ctx.quick:
+            hists.append([o] + xs)
+            hists.append([o, o] + xs[::-1])
+        else:
+            hists += [[o, x, x] for x in POOL]
     # per-class state: every ordered pair of configurations of the SAME entity class (flags toggled between the
     # compilations: dynamic ports present / absent / more, rejected in the architecture or in tracing after the ports
     # were added, class attributes changed), as [v1, v2, v1] (includes [v, v, v])
@@ -449,8 +561,8 @@ def run(ctx: Ctx):
         if len(vs) > 1:
             hists += [[v1, v2, v1] for v1 in vs for v2 in vs]
     pairs = [[a, x] for a in ACCEPTED for x in POOL if x != a]
-    hists += pairs if not ctx.quick else rng.sample(pairs, 30)
-    n_rand = ctx.scale(30, 600)
+    hists += pairs if not ctx.quick else rng.sample(pairs, 20)
+    n_rand = ctx.scale(25, 600)
     max_len = ctx.scale(6, 12)
     names = list(POOL)
     for _ in range(n_rand):
@@ -565,7 +677,7 @@ def run(ctx: Ctx):
 
     # ---- fresh interpreters under different hash seeds
     seeds = ["0", "1", "2", "random"] if ctx.quick else ["0", "1", "2", "3", "4", "5", "random", "random"]
-    seed_designs = [n for n in ACCEPTED if "@" not in n] if ctx.quick else ACCEPTED
+    seed_designs = plain_acc if ctx.quick else [n for n in ACCEPTED if "#" not in n]
     tasks = [(n, s) for n in seed_designs for s in seeds]
     res = fork_map(seed_task, tasks, fresh=False)
     seed_bad = 0
@@ -588,7 +700,7 @@ def run(ctx: Ctx):
                    detail=f"{len(tasks)} subprocess compilations")
 
     # ---- perturbed allocation
-    pert_designs = [n for n in ACCEPTED if "@" not in n] if ctx.quick else ACCEPTED + ACCEPTED
+    pert_designs = plain_acc if ctx.quick else ACCEPTED + ACCEPTED
     pert = real_histories([[n] for n in pert_designs[:len(ACCEPTED)]], perturb=3) + \
         real_histories([[n] for n in pert_designs[len(ACCEPTED):]], perturb=11)
     pert_bad = 0
